@@ -52,8 +52,29 @@ def cases(rng, tier):
             if rt == 41:
                 continue
             wire = b"\x01a\x00" + rt.to_bytes(2, "big") + b"\x00\x01\x00\x00\x00\x05" + len(rd).to_bytes(2, "big") + rd
-            for qt in (rt, 255, 253, 10, 1, 15):
+            for qt in [rt, 255, 253, 10, 1, 15] + (REFINTS.get(rt, []) if rd else []):
                 out.append("RRMATCH %s %x 1" % (wire.hex(), qt))
+    # an RRSIG (and the other types that carry a type code or a small integer in their RDATA) whose field equals each supported
+    # type code in turn, asked for exactly that type: only the record's own type decides
+    for tname in ("RRSIG", "CERT", "DS", "DNSKEY", "MX", "SRV", "NSEC", "CAA"):
+        code = dns.SCHEMA[tname][0]
+        sch = dns.SCHEMA[tname][1]
+        for covered in sorted(BYCODE):
+            if covered in (41, code):
+                continue
+            vals = []
+            for k in sch:
+                if isinstance(k, tuple) and k[0] == "be":
+                    vals.append(("I", covered if k[1] >= 2 else covered & 0xFF))
+                elif k == "cstr" or k == "rest":
+                    vals.append(("B", b"x"))
+                elif isinstance(k, tuple) and k[0] == "name":
+                    vals.append(("N", [b"s"]))
+                else:
+                    vals.append(("L", [(covered >> 8, bytes([0x80 >> (covered & 7)]))] if k[1] == "win" else []))
+            rd = dns.enc_rdata_ref(tname, vals)
+            wire = b"\x01a\x00" + code.to_bytes(2, "big") + b"\x00\x01\x00\x00\x00\x05" + len(rd).to_bytes(2, "big") + rd
+            out.append("RRMATCH %s %x 1" % (wire.hex(), covered))
     # parsed records: every (type code, class code) cross over the supported and the meta type codes and the class codes around
     # every assigned value (with and without the cache-flush bit): an unsupported class is an error whatever the type
     tcs = sorted(set(rts) | {249, 250, 251, 252, 253, 254, 255, 256, 257, 32768, 32769, 65280})
@@ -74,8 +95,15 @@ def _refrd():
     rng = Rng(12345)
     out = {}
     for t in dns.TYPED:
-        out[dns.SCHEMA[t][0]] = dns.enc_rdata_ref(t, dns.gen_typed_vals(rng, t, None))
+        vals = dns.gen_typed_vals(rng, t, None)
+        out[dns.SCHEMA[t][0]] = dns.enc_rdata_ref(t, vals)
+        # the 16-bit integers inside the RDATA (a covered type, a key tag, a preference ...): question types a matcher that looks
+        # into the RDATA could confuse with the record's own type
+        REFINTS[dns.SCHEMA[t][0]] = sorted({v[1] for v in vals if v[0] == "I" and 0 < v[1] < 65536})
     return out
+
+
+REFINTS = {}
 
 
 REFRD = _refrd()
